@@ -57,6 +57,16 @@ def cases(L, tier, seed):
                             yield CG.ClusterEntry('enspara/cluster/kcenters.py::kcenters[warm]', k_expected=max(K, 1), data_arg='traj'), KC.kcenters, \
                                 dict(traj=X.copy(), distance_method=metric, n_clusters=K, init_centers=X[rs].copy()), ('kcenters-warm-reversed', X.tolist(), rs)
                             yield CK.Hybrid('n'), HY.hybrid, dict(X=X.copy(), distance_method=metric, n_iters=it, n_clusters=K, dist_cutoff=None, random_state=3, init_centers=X[rs].copy()), ('hybrid-warm-reversed', X.tolist(), rs, it)
+                        if n >= 3 and it == 1:
+                            from contracts import kmedoids_inputs as KI
+                            lens_ = [1, n - 1] if n < 5 else [2, 1, n - 3]
+                            off_ = np.concatenate([[0], np.cumsum(lens_)])
+                            prs = [(int(np.searchsorted(off_, c_, side='right') - 1), int(c_ - off_[int(np.searchsorted(off_, c_, side='right') - 1)])) for c_ in start]
+                            base = dict(X=X.copy(), distance_method=dm, n_clusters=K, assignments=asg.copy(), distances=D.copy(), X_lengths=None, random_state=None)
+                            yield KI.InputsTree('flat'), KM._kmedoids_inputs_tree, dict(base, cluster_center_inds=list(start)), ('inputs-flat', X.tolist(), start)
+                            yield KI.InputsTree('pairs'), KM._kmedoids_inputs_tree, dict(base, cluster_center_inds=list(prs), X_lengths=list(lens_)), ('inputs-pairs', X.tolist(), prs, lens_)
+                            yield KI.InputsTree('inferred'), KM._kmedoids_inputs_tree, dict(base, cluster_center_inds=None), ('inputs-inferred', X.tolist())
+                            yield KI.InputsTree('labels-without-distances'), KM._kmedoids_inputs_tree, dict(base, cluster_center_inds=None, distances=None), ('inputs-half-state', X.tolist())
                         if n >= 3:
                             lens = [1, n - 1] if n < 5 else [2, 1, n - 3]
                             off = np.concatenate([[0], np.cumsum(lens)])
